@@ -60,6 +60,7 @@ public:
 	Args args;
 	uint64_t evaluations = 0;
 	uint64_t discards = 0;
+	uint64_t bulkEnumerated = 0; // enumerated cases a harness executed itself (batched children)
 	std::unordered_set<uint64_t> nontrivial;
 	std::map<std::string, uint64_t> classes;
 	std::map<std::string, uint64_t> knownHits;
@@ -81,6 +82,9 @@ public:
 	// Bytes put in front of the tape of every recorded failure: how this process was prepared before its
 	// first case (Harness::init), so that the replay in a fresh process starts from the same state
 	std::vector<uint8_t> tapePrefix;
+	// Enumerators that execute tested code themselves (e.g. to learn how many choices a state offers)
+	// announce the tape they are working on first, so that a crash there is attributed to it
+	std::function<void(const uint8_t*, size_t)> noteCurrent;
 	size_t sampleLimit = 6;
 
 	void cls(const std::string& c, uint64_t n = 1) { classes[c] += n; }
@@ -239,7 +243,7 @@ namespace detail {
 		std::string out = J().s("property", h.id)
 							  .n("shard", args.shard)
 							  .u("evaluations", run.evaluations)
-							  .u("enumerated", detCount)
+							  .u("enumerated", detCount + run.bulkEnumerated)
 							  .u("random", randomEvals)
 							  .u("discards", run.discards)
 							  .u("nontrivial_local", run.nontrivial.size())
@@ -340,6 +344,7 @@ inline int harnessMain(int argc, char** argv, const Harness& h) {
 	ctx.curFd = open(curPath.c_str(), O_CREAT | O_RDWR | O_TRUNC, 0644);
 	if (h.init)
 		h.init(run);
+	run.noteCurrent = [&ctx](const uint8_t* p, size_t n) { detail::writeCurrent(&ctx, p, n); };
 
 	// ---- deterministic phase (enumerated tapes), sharded by index
 	uint64_t detCount = 0;
